@@ -247,7 +247,7 @@ class Monitor:
             if stray:
                 self.bad(ctx, "reset-touches-other", "after %s, reset(%s) also changed %s" % (hist, path, stray), hist, op)
             return
-        if op[0] in ("set", "setitem", "load_tree", "loads", "setcfg", "cmdline") and f is not None:
+        if op[0] in ("set", "setitem", "load_tree", "loads", "setcfg", "cmdline", "selfset", "augset") and f is not None:
             # the field a value was successfully assigned / loaded for is user-defined, and so is every
             # enclosing sub-configuration key on a tree route
             try:
